@@ -36,18 +36,21 @@ func (p *psTopic) Peers(_ context.Context) ([]peer.ID, error) {
 	return members, nil
 }
 
-func (p *psTopic) peersDiff(ctx context.Context) (joining, leaving []peer.ID, err error) {
-	p.muMembers.RLock()
+// peersDiff polls the members of the topic and tells who has joined and who
+// has left since known, the members the caller was told about so far. The
+// topic object is shared by everyone who subscribes to the same name (a store
+// that is closed and opened again, several watchers at once): each watcher
+// keeps its own account of what it has reported
+func (p *psTopic) peersDiff(ctx context.Context, known []peer.ID) (joining, leaving, all []peer.ID, err error) {
 	oldMembers := map[peer.ID]struct{}{}
 
-	for _, m := range p.members {
+	for _, m := range known {
 		oldMembers[m] = struct{}{}
 	}
-	p.muMembers.RUnlock()
 
-	all, err := p.ps.api.PubSub().Peers(ctx, options.PubSub.Topic(p.topic))
+	all, err = p.ps.api.PubSub().Peers(ctx, options.PubSub.Topic(p.topic))
 	if err != nil {
-		return nil, nil, err
+		return nil, nil, nil, err
 	}
 
 	// a peer listed more than once is still one member
@@ -73,19 +76,24 @@ func (p *psTopic) peersDiff(ctx context.Context) (joining, leaving []peer.ID, er
 	p.members = all
 	p.muMembers.Unlock()
 
-	return joining, leaving, nil
+	return joining, leaving, all, nil
 }
 
 func (p *psTopic) WatchPeers(ctx context.Context) (<-chan events.Event, error) {
 	ch := make(chan events.Event, 32)
 	go func() {
 		defer close(ch)
+
+		var known []peer.ID
+
 		for {
-			joining, leaving, err := p.peersDiff(ctx)
+			joining, leaving, all, err := p.peersDiff(ctx, known)
 			if err != nil {
 				p.ps.logger.Error("", zap.Error(err))
 				return
 			}
+
+			known = all
 
 			for _, pid := range joining {
 				ch <- pubsub.NewEventPeerJoin(pid, p.Topic())
